@@ -45,7 +45,7 @@ func counter(svc, path string) uint64 { return statpurge.Counter(svc, path) }
 
 func gauge(svc, path string) uint64 { return statpurge.Gauge(svc, path) }
 
-type statInfo struct{ redirected, backendFailure, rejected, stopWithOpen bool }
+type statInfo struct{ redirected, backendFailure, rejected, stopWithOpen, clientGone bool }
 
 func checkStats(c statCase) (inf statInfo, v *verdict) {
 	var svc, addr string
@@ -181,6 +181,35 @@ func checkStats(c statCase) (inf statInfo, v *verdict) {
 				cc.cl.Close() // linger 0: RST
 				delete(conns, o.Conn)
 			}
+		case "flood":
+			// the client asks for far more than it reads and goes away: the proxy is blocked writing replies to it (its socket
+			// buffers are full) when the connection ends
+			cc := conns[o.Conn]
+			if cc == nil || c.Kind != "redis" {
+				continue
+			}
+			big := strings.Repeat("v", 8192)
+			if r, err := cc.cl.Do(20*time.Second, "SET", "kflood", big); err != nil || r.IsErr() {
+				break
+			}
+			var all []byte
+			one := ref.Enc(ref.Cmd("GET", "kflood"))
+			for k := 0; k < 200+o.N*300; k++ {
+				all = append(all, one...)
+			}
+			cc.c.SetWriteDeadline(time.Now().Add(10 * time.Second))
+			cc.c.Write(all)
+			time.Sleep(time.Duration(5+o.N*10) * time.Millisecond)
+			if o.N%2 == 0 {
+				cc.cl.Close() // RST
+			} else {
+				if tc, ok := cc.c.(*net.TCPConn); ok {
+					tc.SetLinger(-1)
+				}
+				cc.c.Close() // FIN
+			}
+			delete(conns, o.Conn)
+			inf.clientGone = true
 		case "cmds":
 			cc := conns[o.Conn]
 			if cc == nil {
@@ -354,6 +383,9 @@ func genStats(t *rapid.T) statCase {
 			o.Op = "close"
 		case x == 5:
 			o.Op = "abort"
+			if rapid.Bool().Draw(t, "flood") {
+				o.Op, o.N = "flood", rapid.IntRange(0, 5).Draw(t, "fn")
+			}
 		case x <= 11:
 			o.Op = "cmds"
 			for k, m := 0, rapid.IntRange(1, 12).Draw(t, "m"); k < m; k++ {
@@ -401,9 +433,10 @@ func TestStats(t *testing.T) {
 		if v != nil {
 			vh.Fail(t, vh.Failure{Property: prop, Part: "stats", Signature: v.sig, Message: v.msg, Case: c})
 		}
-		nt := inf.redirected || inf.backendFailure || inf.rejected || inf.stopWithOpen
+		nt := inf.redirected || inf.backendFailure || inf.rejected || inf.stopWithOpen || inf.clientGone
 		vh.Rec().Case("stats", nt, vh.JSON(c))
-		for name, b := range map[string]bool{"redirection": inf.redirected, "backend_failure": inf.backendFailure, "limit_rejection": inf.rejected, "stop_with_open_connections": inf.stopWithOpen} {
+		for name, b := range map[string]bool{"redirection": inf.redirected, "backend_failure": inf.backendFailure, "limit_rejection": inf.rejected, "stop_with_open_connections": inf.stopWithOpen,
+			"client_gone_while_the_proxy_writes_replies": inf.clientGone} {
 			if b {
 				vh.Rec().Class("stats", name)
 			}
